@@ -143,7 +143,11 @@ func wgRun(t *testing.T, sp *wgSpec) {
 		rec.Require(c, f)
 	}
 	rapid.Check(t, func(rt *rapid.T) {
-		m := gen.GraphModel(rt, sp.opts)
+		opts := sp.opts
+		if ev.Thorough() && rapid.IntRange(0, 3).Draw(rt, "big") == 0 {
+			opts.Big = true
+		}
+		m := gen.GraphModel(rt, opts)
 		in := wgInput{Model: m}
 		g0 := refBuildOnly(m)
 		if g0.Err == "" {
